@@ -317,6 +317,11 @@ def render(problem):
 
 
 # ----------------------------------------------------------------------------------------------- the oracle
+# fingerprints of the mechanisms found on the unchanged tree (see the calibration notes in mc/props/c18.py)
+FP_RANGE0 = "range: phase with |transfer| < 1e-9 is printed although it is not a member of the model; its range is 0..0"
+FP_RANGE_ERR = "range: min/max reported although the library printed 'Error in subroutine range' (cl1 status ignored in range())"
+FP_RANGE_SUBOPT = "range: value outside its reported min..max (min <= max, no solver message: cl1 returned a non-optimal bound)"
+FP_ROUNDOFF_MODEL = "model: reported although the library printed 'CL1: Roundoff errors' for it (cl1 status ignored); it violates its constraints"
 def solver_tolerance(opts):
     """The declared solver tolerance ('numbers smaller than this are zero'): -tolerance (default 1e-10), or
     -mp_tolerance (default 1e-12) with -multiple_precision."""
@@ -398,6 +403,13 @@ def judge(problem, stoich, out, selstr):
             return problems, info
 
     sets = []
+    collinear = None
+    if opts.get("mineral_water") is not False:
+        for a, b in [(a, b) for a in phases for b in phases if a < b]:
+            diff = {e: nu[a].get(e, 0.0) - nu[b].get(e, 0.0) for e in set(nu[a]) | set(nu[b])}
+            nz = {e: v for e, v in diff.items() if abs(v) > 1e-12}
+            if set(nz) == {"H", "O"} and abs(nz["H"] - 2 * nz["O"]) < 1e-12:
+                collinear = (a, b)
     for k, (mod, row) in enumerate(zip(models, rows)):
         tag = "model %d of %d" % (k + 1, len(models))
         start = len(problems)
@@ -412,13 +424,13 @@ def judge(problem, stoich, out, selstr):
                 problems.append(("report: printed transfer != selected-output transfer", "%s: %s printed %r, string %r" % (tag, p, v[0], t[p])))
         # ---- (iii) admissibility
         for n in solns:
-            if f[n] < 0:
+            if f[n] < -tol:
                 problems.append(("sign: negative mixing fraction", "%s: fraction of solution %d = %r" % (tag, n, f[n])))
         for p in phases:
             c = (constraint[p] or "")[:1].lower()
-            if c == "d" and t[p] < 0:
+            if c == "d" and t[p] < -tol:
                 problems.append(("sign: dissolve-only phase precipitates", "%s: %s (dissolve) transfer %r" % (tag, p, t[p])))
-            if c == "p" and t[p] > 0:
+            if c == "p" and t[p] > tol:
                 problems.append(("sign: precipitate-only phase dissolves", "%s: %s (precipitate) transfer %r" % (tag, p, t[p])))
         # ---- range
         if opts.get("range"):
@@ -427,10 +439,12 @@ def judge(problem, stoich, out, selstr):
                 slack = tol + 1e-11 * max(abs(v), abs(lo), abs(hi))
                 if not (lo - slack <= v <= hi + slack):
                     kind = "solution" if name.startswith("Soln_") else "phase"
-                    if lo == 0.0 and hi == 0.0 and abs(v) < 1e-9:
-                        fp = "range: value outside [min,max]: %s with |value| < 1e-9 reported with range 0..0" % kind
+                    if lo == 0.0 and hi == 0.0 and abs(v) < 1e-9 and kind == "phase":
+                        fp = FP_RANGE0
+                    elif lo > hi + slack:
+                        fp = "range: min > max"
                     else:
-                        fp = "range: value outside [min,max] (%s)" % kind
+                        fp = FP_RANGE_SUBOPT
                     problems.append((fp, "%s: %s = %r but reported range is [%r, %r] (declared solver tolerance %g)" % (tag, name, v, lo, hi, tol)))
         # ---- (i) every printed adjustment within its declared uncertainty
         present = [n for n in solns if n in mod["solutions"]]
@@ -516,18 +530,26 @@ def judge(problem, stoich, out, selstr):
         info.setdefault("pre", []).append((pre["range_err"], pre["roundoff"]))
         for i in range(start, len(problems)):
             fp, what = problems[i]
-            if pre["range_err"] and fp.startswith("range:"):
-                problems[i] = (fp + " |R", what)
+            if fp.startswith("range:"):
+                if fp == FP_RANGE0:
+                    pass
+                elif pre["range_err"]:
+                    problems[i] = (FP_RANGE_ERR, what + "; the library printed 'Error in subroutine range. Kode = ..' %d time(s) for this model" % pre["range_err"])
+                elif collinear:
+                    problems[i] = (fp, what + "; candidate phases %s and %s differ only by H2O (-mineral_water true: ill-conditioned)" % collinear)
             elif pre["roundoff"]:
-                problems[i] = (fp + " |r", what)
+                problems[i] = (FP_ROUNDOFF_MODEL, "%s [%s]; the library printed 'CL1: Roundoff errors in optimization' %d time(s) immediately before this model" % (what, fp, pre["roundoff"]))
     info["sets"] = [sorted(s) for s in sets]
     # ---- (iv) -minimal
     if opts.get("minimal"):
         for a in range(len(sets)):
             for b in range(len(sets)):
                 if a != b and sets[a] > sets[b]:
-                    problems.append(("minimal: a reported model strictly contains another reported model",
-                                     "model %d %s contains model %d %s" % (a + 1, sorted(sets[a]), b + 1, sorted(sets[b]))))
+                    what = "model %d %s contains model %d %s" % (a + 1, sorted(sets[a]), b + 1, sorted(sets[b]))
+                    if models[a]["pre"]["roundoff"] or models[b]["pre"]["roundoff"]:
+                        problems.append((FP_ROUNDOFF_MODEL, what + " [minimal]; the library printed 'CL1: Roundoff errors in optimization' immediately before one of them"))
+                    else:
+                        problems.append(("minimal: a reported model strictly contains another reported model", what))
     # de-duplicate by fingerprint
     seen, uniq = set(), []
     for p in problems:
